@@ -212,3 +212,989 @@ Lemma not_ready_topics r :
   map (fun t => (mt_name t, mt_id t, mt_parts t)) (cl_topics (not_ready_metadata r)) =
   map (fun t : option bytes * bytes => (fst t, snd t, [])) (if mr_all r then [] else mr_topics r).
 Proof. unfold not_ready_metadata; cbn. rewrite map_map. reflexivity. Qed.
+
+(* ------------------------------------------------------------------ *)
+(* Part B: C27                                                         *)
+(* ------------------------------------------------------------------ *)
+From Coq Require Import Permutation.
+
+Definition keyp (E : env) (x : topic * Z) : tpk := (key E (fst x), snd x).
+Definition rkeyp (E : env) (x : rpart) : tpk := (rkey E (fst (fst x)), snd (fst x)).
+
+(* the (topic key, partition) of every entry of a merged response *)
+Definition mkeys (E : env) (m : merged) : list tpk := map (rkeyp E) (merged_ents m).
+(* ... of every partition in a list of groups *)
+Definition gtps (E : env) (gs : list group) : list tpk := flat_map (fun g => sub_tps E (g_sub g)) gs.
+Definition mtopics (m : merged) : list topic := map fst m.
+Definition sub_topics (s : subreq) : list topic := map fst s.
+Definition gtopics (gs : list group) : list topic := flat_map (fun g => sub_topics (g_sub g)) gs.
+
+Lemma sub_tps_cons E t ps s :
+  sub_tps E ((t, ps) :: s) = map (fun p => (key E t, p)) ps ++ sub_tps E s.
+Proof.
+  unfold sub_tps, flatten. cbn [flat_map fst snd]. rewrite map_app, map_map. reflexivity.
+Qed.
+
+Lemma sub_tps_app E s1 s2 : sub_tps E (s1 ++ s2) = sub_tps E s1 ++ sub_tps E s2.
+Proof. unfold sub_tps, flatten. now rewrite flat_map_app, map_app. Qed.
+
+Lemma mkeys_cons E e es m :
+  mkeys E ((e, es) :: m) = map (fun pc : Z * Z => (rkey E e, fst pc)) es ++ mkeys E m.
+Proof.
+  unfold mkeys, merged_ents. cbn [flat_map fst snd]. rewrite map_app, map_map. reflexivity.
+Qed.
+
+Section Generic.
+Variable E : env.
+(* [ok] delimits the topic records that occur: those of the request and those of the
+   backends' replies.  On them, the merge match (findOrAdd...TopicResponse) must agree
+   with the key the proxy files partitions under. *)
+Variable ok : topic -> Prop.
+Hypothesis Hcompat : forall e q, ok e -> ok q -> (same E e q = true <-> rkey E e = rkey E q).
+
+(* request-side topics: additionally their request key is their reply key *)
+Definition okq (t : topic) : Prop := ok t /\ key E t = rkey E t.
+
+(* ---- merging ---- *)
+Lemma add_part_perm m q pc :
+  Forall ok (mtopics m) -> ok q ->
+  Permutation (mkeys E (add_part E m q pc)) ((rkey E q, fst pc) :: mkeys E m) /\
+  Forall ok (mtopics (add_part E m q pc)).
+Proof.
+  intros Hm Hq. induction m as [|[e es] m IH]; cbn [add_part].
+  - split; [|repeat constructor; assumption]. rewrite mkeys_cons. cbn. apply Permutation_refl.
+  - inversion Hm as [|? ? He Hm']; subst. cbn [fst] in He.
+    destruct (same E e q) eqn:Hs.
+    + split; [|exact Hm]. rewrite !mkeys_cons, map_app. cbn [map fst].
+      apply (Hcompat e q He Hq) in Hs. rewrite Hs. rewrite <- app_assoc. cbn [app].
+      apply Permutation_sym, Permutation_middle.
+    + destruct (IH Hm') as [IH1 IH2]. split.
+      * rewrite !mkeys_cons. eapply perm_trans; [apply Permutation_app_head; exact IH1|].
+        apply Permutation_sym, Permutation_middle.
+      * constructor; assumption.
+Qed.
+
+Lemma ensure_topic_keys m q :
+  Forall ok (mtopics m) -> ok q ->
+  mkeys E (ensure_topic E m q) = mkeys E m /\ Forall ok (mtopics (ensure_topic E m q)).
+Proof.
+  intros Hm Hq. induction m as [|[e es] m IH]; cbn [ensure_topic].
+  - split; [reflexivity|repeat constructor; assumption].
+  - inversion Hm as [|? ? He Hm']; subst. destruct (same E e q); [split; [reflexivity|exact Hm]|].
+    destruct (IH Hm') as [IH1 IH2]. split; [now rewrite !mkeys_cons, IH1|constructor; assumption].
+Qed.
+
+Lemma add_parts_perm t code ps m :
+  Forall ok (mtopics m) -> okq t ->
+  let m' := fold_left (fun m p => add_part E m t (p, code)) ps m in
+  Permutation (mkeys E m') (mkeys E m ++ map (fun p => (key E t, p)) ps) /\ Forall ok (mtopics m').
+Proof.
+  intros Hm [Ht Hk]. revert m Hm. induction ps as [|p ps IH]; intros m Hm; cbn [fold_left map].
+  - split; [now rewrite app_nil_r|exact Hm].
+  - destruct (add_part_perm m t (p, code) Hm Ht) as [H1 H2].
+    destruct (IH _ H2) as [H3 H4]. split; [|exact H4].
+    eapply perm_trans; [exact H3|]. rewrite Hk.
+    eapply perm_trans; [apply Permutation_app_tail; exact H1|]. cbn [fst].
+    rewrite <- Hk. cbn [app]. apply Permutation_middle.
+Qed.
+
+Lemma add_error_all_perm s code m :
+  Forall ok (mtopics m) -> Forall okq (sub_topics s) ->
+  Permutation (mkeys E (add_error_all E m s code)) (mkeys E m ++ sub_tps E s) /\
+  Forall ok (mtopics (add_error_all E m s code)).
+Proof.
+  unfold add_error_all. revert m. induction s as [|[t ps] s IH]; intros m Hm Hs; cbn [fold_left].
+  - split; [unfold sub_tps; cbn; now rewrite app_nil_r|exact Hm].
+  - inversion Hs as [|? ? Ht Hs']; subst. cbn [fst snd] in *.
+    destruct (ensure_topic_keys m t Hm (proj1 Ht)) as [H1 H2].
+    destruct (add_parts_perm t code ps _ H2 Ht) as [H3 H4]. cbv zeta in H3, H4.
+    destruct (IH _ H4 Hs') as [H5 H6]. split; [|exact H6].
+    eapply perm_trans; [exact H5|]. rewrite sub_tps_cons, app_assoc.
+    apply Permutation_app_tail. rewrite <- H1. exact H3.
+Qed.
+
+(* ---- one reply part / one result ---- *)
+Definition MF (s : st) : list tpk := mkeys E (s_merged s) ++ s_failed s.
+
+Lemma process_part_perm s x :
+  Forall ok (mtopics (s_merged s)) -> ok (fst (fst x)) ->
+  Permutation (MF (process_part E s x)) (rkeyp E x :: MF s) /\
+  Forall ok (mtopics (s_merged (process_part E s x))).
+Proof.
+  intros Hm Hx. destruct x as [[t p] code]. unfold process_part, MF, rkeyp. cbn [fst snd] in *.
+  destruct (code =? ERR_NOT_LEADER); cbn [s_merged s_failed].
+  - split; [|exact Hm]. rewrite app_assoc. apply Permutation_sym, Permutation_cons_append.
+  - destruct (add_part_perm (s_merged s) t (p, code) Hm Hx) as [H1 H2]. split; [|exact H2].
+    eapply perm_trans; [apply Permutation_app_tail; exact H1|]. reflexivity.
+Qed.
+
+Lemma process_parts_perm parts s :
+  Forall ok (mtopics (s_merged s)) -> Forall (fun x : rpart => ok (fst (fst x))) parts ->
+  Permutation (MF (fold_left (process_part E) parts s)) (map (rkeyp E) parts ++ MF s) /\
+  Forall ok (mtopics (s_merged (fold_left (process_part E) parts s))).
+Proof.
+  revert s. induction parts as [|x parts IH]; intros s Hm Hp; cbn [fold_left map app].
+  - split; [reflexivity|exact Hm].
+  - inversion Hp as [|? ? Hx Hp']; subst.
+    destruct (process_part_perm s x Hm Hx) as [H1 H2]. destruct (IH _ H2 Hp') as [H3 H4].
+    split; [|exact H4]. eapply perm_trans; [exact H3|].
+    eapply perm_trans; [apply Permutation_app_head; exact H1|]. apply Permutation_sym, Permutation_middle.
+Qed.
+
+Lemma process_error_perm last s sub :
+  Forall ok (mtopics (s_merged s)) -> Forall okq (sub_topics sub) ->
+  Permutation (MF (process_error E last s sub)) (sub_tps E sub ++ MF s) /\
+  Forall ok (mtopics (s_merged (process_error E last s sub))).
+Proof.
+  intros Hm Hs. unfold process_error, MF.
+  destruct (e_fetch E && negb last); cbn [s_merged s_failed].
+  - split; [|exact Hm]. rewrite app_assoc. apply Permutation_app_comm.
+  - destruct (add_error_all_perm sub ERR_REQUEST_TIMED_OUT _ Hm Hs) as [H1 H2]. split; [|exact H2].
+    eapply perm_trans; [apply Permutation_app_tail; exact H1|].
+    rewrite <- app_assoc. eapply perm_trans; [apply Permutation_app_comm|].
+    rewrite <- app_assoc. apply Permutation_app_head, Permutation_app_comm.
+Qed.
+
+(* a backend reply answers exactly the partitions of the sub-request (as the proxy keys
+   them) and uses topic records on which merge match and key agree *)
+Definition reply_complete (sub : subreq) (o : outcome) : Prop :=
+  match o with
+  | Reply parts => Permutation (map (rkeyp E) parts) (sub_tps E sub) /\
+                   Forall (fun x : rpart => ok (fst (fst x))) parts
+  | _ => True
+  end.
+
+Definition result_ok (r : group * option (bytes * outcome)) : Prop :=
+  Forall okq (sub_topics (g_sub (fst r))) /\
+  match snd r with Some (_, o) => reply_complete (g_sub (fst r)) o | None => True end.
+
+Lemma process_result_perm last k s r :
+  Forall ok (mtopics (s_merged s)) -> result_ok r ->
+  Permutation (MF (process_result E last k s r)) (sub_tps E (g_sub (fst r)) ++ MF s) /\
+  Forall ok (mtopics (s_merged (process_result E last k s r))).
+Proof.
+  intros Hm [Hq Ho]. unfold process_result. destruct (snd r) as [[a o]|].
+  - destruct o as [parts| | |].
+    + destruct Ho as [Hp Hok].
+      pose proof (process_parts_perm parts
+        (mkSt (s_routes s) (s_rr s) (s_seen s) (s_merged s) (s_failed s)
+              (s_log s ++ [mkLog k a (g_sub (fst r)) (Reply parts)])) Hm Hok) as [H1 H2].
+      split; [|exact H2]. eapply perm_trans; [exact H1|]. apply Permutation_app_tail. exact Hp.
+    + apply (process_error_perm last (mkSt _ _ _ _ _ _) _ Hm Hq).
+    + apply (process_error_perm last (mkSt _ _ _ _ _ _) _ Hm Hq).
+    + apply (process_error_perm last (mkSt _ _ _ _ _ _) _ Hm Hq).
+  - apply process_error_perm; assumption.
+Qed.
+
+Definition rtps (rs : list (group * option (bytes * outcome))) : list tpk :=
+  flat_map (fun r : group * option (bytes * outcome) => sub_tps E (g_sub (fst r))) rs.
+
+Lemma process_results_perm last k rs s :
+  Forall ok (mtopics (s_merged s)) -> Forall result_ok rs ->
+  Permutation (MF (fold_left (process_result E last k) rs s)) (rtps rs ++ MF s) /\
+  Forall ok (mtopics (s_merged (fold_left (process_result E last k) rs s))).
+Proof.
+  revert s. induction rs as [|r rs IH]; intros s Hm Hr; cbn [fold_left rtps flat_map app].
+  - split; [reflexivity|exact Hm].
+  - inversion Hr as [|? ? Hr1 Hr2]; subst.
+    destruct (process_result_perm last k s r Hm Hr1) as [H1 H2]. destruct (IH _ H2 Hr2) as [H3 H4].
+    split; [|exact H4]. eapply perm_trans; [exact H3|]. fold (rtps rs).
+    eapply perm_trans; [apply Permutation_app_head; exact H1|].
+    rewrite !app_assoc. apply Permutation_app_tail, Permutation_app_comm.
+Qed.
+
+End Generic.
+
+Section Generic2.
+Variable E : env.
+Variable ok : topic -> Prop.
+Hypothesis Hcompat : forall e q, ok e -> ok q -> (same E e q = true <-> rkey E e = rkey E q).
+Variable backend : backend_fn.
+(* every reply answers exactly the partitions of its sub-request *)
+Hypothesis Hbackend : forall k a n sub, reply_complete E ok sub (backend k a n sub).
+
+Notation okq := (okq E ok).
+Notation MF := (MF E).
+
+Lemma connect_all_fst dial gs tried rr :
+  map fst (fst (connect_all E dial gs tried rr)) = gs.
+Proof.
+  revert tried rr. induction gs as [|g gs IH]; intros tried rr; cbn [connect_all]; [reflexivity|].
+  destruct (connect_for_addr E dial (g_addr g) tried rr) as [r rr1].
+  specialize (IH (match r with Some a => a :: tried | None => tried end) rr1).
+  destruct (connect_all E dial gs _ rr1) as [rest rr2]. cbn [fst map] in *. now rewrite IH.
+Qed.
+
+Lemma send_all_ok k work seen :
+  Forall (fun w : group * option bytes => Forall okq (sub_topics (g_sub (fst w)))) work ->
+  map fst (fst (send_all backend k work seen)) = map fst work /\
+  Forall (result_ok E ok) (fst (send_all backend k work seen)).
+Proof.
+  revert seen. induction work as [|[g [a|]] work IH]; intros seen Hw; cbn [send_all].
+  - split; [reflexivity|constructor].
+  - inversion Hw as [|? ? Hg Hw']; subst. specialize (IH (seen_bump a seen) Hw').
+    destruct (send_all backend k work (seen_bump a seen)) as [rs seen']. cbn [fst map] in *.
+    destruct IH as [IH1 IH2]. split; [now rewrite IH1|]. constructor; [|exact IH2].
+    split; [exact Hg|]. cbn [snd fst]. apply Hbackend.
+  - inversion Hw as [|? ? Hg Hw']; subst. specialize (IH seen Hw').
+    destruct (send_all backend k work seen) as [rs seen']. cbn [fst map] in *.
+    destruct IH as [IH1 IH2]. split; [now rewrite IH1|]. constructor; [|exact IH2].
+    split; [exact Hg|exact I].
+Qed.
+
+Lemma filter_partition_perm {A} (f : A -> bool) l :
+  Permutation (filter f l ++ filter (fun x => negb (f x)) l) l.
+Proof.
+  induction l as [|x l IH]; cbn [filter]; [constructor|].
+  destruct (f x); cbn [negb app].
+  - now constructor.
+  - eapply perm_trans; [apply Permutation_sym, Permutation_middle|]. now constructor.
+Qed.
+
+Lemma rtps_gtps rs : rtps E rs = gtps E (map fst rs).
+Proof. unfold rtps, gtps. induction rs as [|r rs IH]; cbn [flat_map map]; [reflexivity|now rewrite IH]. Qed.
+
+Lemma Forall_okq_groups gs :
+  Forall okq (gtopics gs) -> Forall (fun g => Forall okq (sub_topics (g_sub g))) gs.
+Proof.
+  induction gs as [|g gs IH]; cbn [gtopics flat_map]; intros H; constructor.
+  - apply Forall_app in H. tauto.
+  - apply IH. apply Forall_app in H. tauto.
+Qed.
+
+Lemma attempt_perm dial last k s gs :
+  Forall ok (mtopics (s_merged s)) -> Forall okq (gtopics gs) ->
+  let s1 := attempt E dial backend last k s gs in
+  Permutation (MF s1) (gtps E gs ++ mkeys E (s_merged s)) /\ Forall ok (mtopics (s_merged s1)).
+Proof.
+  intros Hm Hg. unfold attempt.
+  pose proof (connect_all_fst (dial k) gs [] (s_rr s)) as Hc.
+  destruct (connect_all E (dial k) gs [] (s_rr s)) as [work rr1]. cbn [fst] in Hc.
+  assert (Hw : Forall (fun w : group * option bytes => Forall okq (sub_topics (g_sub (fst w)))) work).
+  { apply Forall_okq_groups in Hg. rewrite <- Hc in Hg. rewrite Forall_map in Hg. exact Hg. }
+  pose proof (send_all_ok k work (s_seen s) Hw) as [Hs1 Hs2].
+  destruct (send_all backend k work (s_seen s)) as [results seen1]. cbn [fst] in Hs1, Hs2.
+  set (f := fun r : group * option (bytes * outcome) => is_none (snd r)).
+  assert (Hperm : Permutation (filter f results ++ filter (fun r => negb (f r)) results) results)
+    by apply filter_partition_perm.
+  assert (Hok : Forall (result_ok E ok) (filter f results ++ filter (fun r => negb (f r)) results)).
+  { rewrite Forall_forall in *. intros r Hr. apply Hs2. eapply Permutation_in; [exact Hperm|exact Hr]. }
+  pose proof (process_results_perm E ok Hcompat last k _
+    (mkSt (s_routes s) rr1 seen1 (s_merged s) [] (s_log s)) Hm Hok) as [H1 H2].
+  cbv zeta. split; [|exact H2]. eapply perm_trans; [exact H1|].
+  unfold ProxyProofs.MF. cbn [s_merged s_failed]. rewrite app_nil_r.
+  apply Permutation_app_tail. rewrite rtps_gtps.
+  unfold gtps. apply Permutation_flat_map. rewrite <- Hc, <- Hs1. apply Permutation_map. exact Hperm.
+Qed.
+
+(* ---- grouping ---- *)
+Lemma sub_insert_perm s t p :
+  Permutation (sub_tps E (sub_insert E s t p)) ((key E t, p) :: sub_tps E s) /\
+  (Forall okq (sub_topics s) -> okq t -> Forall okq (sub_topics (sub_insert E s t p))).
+Proof.
+  induction s as [|[t' ps] s [IH1 IH2]]; cbn [sub_insert].
+  - split; [rewrite sub_tps_cons; cbn; reflexivity|intros _ Ht; cbn; constructor; [exact Ht|constructor]].
+  - destruct (bytes_eqb (key E t') (key E t)) eqn:Ek.
+    + apply bytes_eqb_eq in Ek. split.
+      * rewrite !sub_tps_cons, map_app. cbn [map]. rewrite Ek, <- app_assoc. cbn [app].
+        apply Permutation_sym, Permutation_middle.
+      * intros Hs _. exact Hs.
+    + split.
+      * rewrite !sub_tps_cons. eapply perm_trans; [apply Permutation_app_head; exact IH1|].
+        apply Permutation_sym, Permutation_middle.
+      * intros Hs Ht. inversion Hs; subst. constructor; [assumption|]. now apply IH2.
+Qed.
+
+Lemma grp_insert_perm gs addr t p :
+  Permutation (gtps E (grp_insert E gs addr t p)) ((key E t, p) :: gtps E gs) /\
+  (Forall okq (gtopics gs) -> okq t -> Forall okq (gtopics (grp_insert E gs addr t p))).
+Proof.
+  induction gs as [|g gs [IH1 IH2]]; cbn [grp_insert].
+  - split.
+    + unfold gtps; cbn [flat_map g_sub]. rewrite sub_tps_cons. cbn. reflexivity.
+    + intros _ Ht. cbn. constructor; [exact Ht|constructor].
+  - destruct (bytes_eqb (g_addr g) addr).
+    + destruct (sub_insert_perm (g_sub g) t p) as [H1 H2]. split.
+      * unfold gtps; cbn [flat_map g_sub]. fold (gtps E gs).
+        eapply perm_trans; [apply Permutation_app_tail; exact H1|]. reflexivity.
+      * intros Hs Ht. cbn [gtopics flat_map g_sub] in *. apply Forall_app in Hs as [Hs1 Hs2].
+        apply Forall_app; split; [now apply H2|exact Hs2].
+    + split.
+      * unfold gtps; cbn [flat_map]. fold (gtps E gs) (gtps E (grp_insert E gs addr t p)).
+        eapply perm_trans; [apply Permutation_app_head; exact IH1|].
+        apply Permutation_sym, Permutation_middle.
+      * intros Hs Ht. cbn [gtopics flat_map] in *. apply Forall_app in Hs as [Hs1 Hs2].
+        apply Forall_app; split; [exact Hs1|now apply IH2].
+Qed.
+
+Lemma group_fold_perm rs (items : list (topic * Z)) gs :
+  let gs' := fold_left (fun gs (x : topic * Z) =>
+                 grp_insert E gs (owner_addr E rs (fst x) (snd x)) (fst x) (snd x)) items gs in
+  Permutation (gtps E gs') (gtps E gs ++ map (keyp E) items) /\
+  (Forall okq (gtopics gs) -> Forall okq (map fst items) -> Forall okq (gtopics gs')).
+Proof.
+  revert gs. induction items as [|x items IH]; intros gs; cbn [fold_left map].
+  - split; [now rewrite app_nil_r|tauto].
+  - destruct (grp_insert_perm gs (owner_addr E rs (fst x) (snd x)) (fst x) (snd x)) as [H1 H2].
+    destruct (IH (grp_insert E gs (owner_addr E rs (fst x) (snd x)) (fst x) (snd x))) as [H3 H4].
+    cbv zeta in *. split.
+    + eapply perm_trans; [exact H3|]. eapply perm_trans; [apply Permutation_app_tail; exact H1|].
+      cbn [app]. apply Permutation_middle.
+    + intros Hg Hi. inversion Hi; subst. apply H4; [now apply H2|assumption].
+Qed.
+
+Lemma flatten_topics r x : In x (flatten r) -> In (fst x) (sub_topics r).
+Proof.
+  unfold flatten, sub_topics. intros H. apply in_flat_map in H as [[t ps] [H1 H2]].
+  cbn [fst snd] in H2. apply in_map_iff in H2 as [p [<- _]]. cbn [fst].
+  apply in_map_iff. exists (t, ps). split; [reflexivity|exact H1].
+Qed.
+
+Lemma group_by_perm rs r incl :
+  Permutation (gtps E (group_by E rs r incl)) (map (keyp E) (filter (included E incl) (flatten r))) /\
+  (Forall okq (sub_topics r) -> Forall okq (gtopics (group_by E rs r incl))).
+Proof.
+  unfold group_by.
+  destruct (group_fold_perm rs (filter (included E incl) (flatten r)) []) as [H1 H2]. cbv zeta in *.
+  split; [exact H1|]. intros Hr. apply H2; [constructor|].
+  apply Forall_forall. intros t Ht. apply in_map_iff in Ht as [x [<- Hx]].
+  apply filter_In in Hx as [Hx _]. rewrite Forall_forall in Hr. apply Hr. now apply flatten_topics.
+Qed.
+
+Lemma sub_tps_flatten r : sub_tps E r = map (keyp E) (flatten r).
+Proof. reflexivity. Qed.
+
+Lemma mem_tpk_In x l : mem_tpk x l = true <-> In x l.
+Proof.
+  unfold mem_tpk. rewrite existsb_exists. split.
+  - intros [y [Hy He]]. unfold tpk_eqb in He. apply andb_true_iff in He as [H1 H2].
+    apply bytes_eqb_eq in H1. apply Z.eqb_eq in H2. destruct x, y; cbn in *; subst. exact Hy.
+  - intros H. exists x. split; [exact H|]. unfold tpk_eqb. now rewrite bytes_eqb_refl, Z.eqb_refl.
+Qed.
+
+Lemma NoDup_map_filter {A B} (f : A -> B) (g : A -> bool) l : NoDup (map f l) -> NoDup (map f (filter g l)).
+Proof.
+  induction l as [|x l IH]; cbn [map filter]; intros H; [constructor|].
+  inversion H as [|? ? Hn Hd]; subst. destruct (g x); cbn [map]; [|now apply IH].
+  constructor; [|now apply IH]. intros Hin. apply Hn. apply in_map_iff in Hin as [y [Hy Hin]].
+  apply filter_In in Hin as [Hin _]. apply in_map_iff. now exists y.
+Qed.
+
+(* regrouping the failed partitions: exactly the failed ones, once each *)
+Lemma regroup_items_perm r F :
+  NoDup (sub_tps E r) -> NoDup F -> (forall x, In x F -> In x (sub_tps E r)) ->
+  Permutation (map (keyp E) (filter (included E (Some F)) (flatten r))) F.
+Proof.
+  intros Hr HF Hsub. apply NoDup_Permutation; [now apply NoDup_map_filter|exact HF|].
+  intros x. split.
+  - intros H. apply in_map_iff in H as [y [<- Hy]]. apply filter_In in Hy as [_ Hy].
+    unfold included in Hy. now apply mem_tpk_In in Hy.
+  - intros H. pose proof (Hsub x H) as Hx. rewrite sub_tps_flatten in Hx.
+    apply in_map_iff in Hx as [y [<- Hy]]. apply in_map_iff. exists y. split; [reflexivity|].
+    apply filter_In. split; [exact Hy|]. unfold included. now apply mem_tpk_In.
+Qed.
+
+End Generic2.
+
+Section Generic3.
+Variable E : env.
+Variable ok : topic -> Prop.
+Hypothesis Hcompat : forall e q, ok e -> ok q -> (same E e q = true <-> rkey E e = rkey E q).
+Variable backend : backend_fn.
+Hypothesis Hbackend : forall k a n sub, reply_complete E ok sub (backend k a n sub).
+Variable dial : Z -> bytes -> bool.
+Variable ord : ord_fn.
+(* Go map iteration: any order of the groups *)
+Hypothesis Hord : forall k gs, Permutation (ord k gs) gs.
+Variable req : subreq.
+(* the request names each topic-partition once (under the proxy's own keying) *)
+Hypothesis Hnodup : NoDup (sub_tps E req).
+Hypothesis Hreq_ok : Forall (okq E ok) (sub_topics req).
+
+Notation okq := (okq E ok).
+Notation MF := (MF E).
+
+Lemma NoDup_app_r {A} (l l' : list A) : NoDup (l ++ l') -> NoDup l'.
+Proof. induction l as [|x l IH]; cbn; [tauto|]. intros H. inversion H; subst. now apply IH. Qed.
+
+Lemma filter_none {A} (f : A -> bool) l : (forall x, In x l -> f x = false) -> filter f l = [].
+Proof.
+  induction l as [|x l IH]; cbn; [reflexivity|]. intros H. rewrite (H x) by now left.
+  apply IH. intros y Hy. apply H. now right.
+Qed.
+
+Lemma gtopics_perm gs gs' : Permutation gs gs' -> Forall okq (gtopics gs') -> Forall okq (gtopics gs).
+Proof.
+  intros Hp H. eapply Permutation_Forall; [|exact H]. unfold gtopics.
+  apply Permutation_flat_map, Permutation_sym, Hp.
+Qed.
+
+Lemma loop_exit fuel : forall k s gs,
+  Forall ok (mtopics (s_merged s)) -> Forall okq (gtopics gs) ->
+  Permutation (mkeys E (s_merged s) ++ gtps E gs) (sub_tps E req) ->
+  let s' := loop E dial backend ord req (S fuel) k s gs in
+  Permutation (MF s') (sub_tps E req) /\ Forall ok (mtopics (s_merged s')).
+Proof.
+  induction fuel as [|fuel IH]; intros k s gs Hm Hg Hinv; cbn [loop].
+  - set (s1 := attempt E dial backend true k s (ord k gs)).
+    assert (H1 : Permutation (MF s1) (sub_tps E req) /\ Forall ok (mtopics (s_merged s1))).
+    { destruct (attempt_perm E ok Hcompat backend Hbackend dial true k s (ord k gs) Hm
+                  (gtopics_perm _ _ (Hord k gs) Hg)) as [A B]. split; [|exact B].
+      eapply perm_trans; [exact A|]. eapply perm_trans; [apply Permutation_app_comm|].
+      eapply perm_trans; [|exact Hinv]. apply Permutation_app_head.
+      unfold gtps. apply Permutation_flat_map, Hord. }
+    fold s1. destruct (s_failed s1); [exact H1|].
+    destruct (group_by E (s_routes s1) req (Some (t :: l))); exact H1.
+  - set (s1 := attempt E dial backend false k s (ord k gs)).
+    assert (H1 : Permutation (MF s1) (sub_tps E req) /\ Forall ok (mtopics (s_merged s1))).
+    { destruct (attempt_perm E ok Hcompat backend Hbackend dial false k s (ord k gs) Hm
+                  (gtopics_perm _ _ (Hord k gs) Hg)) as [A B]. split; [|exact B].
+      eapply perm_trans; [exact A|]. eapply perm_trans; [apply Permutation_app_comm|].
+      eapply perm_trans; [|exact Hinv]. apply Permutation_app_head.
+      unfold gtps. apply Permutation_flat_map, Hord. }
+    fold s1. destruct H1 as [H1 H2]. destruct (s_failed s1) as [|f F] eqn:EF; [split; assumption|].
+    destruct (group_by_perm E ok (s_routes s1) req (Some (f :: F))) as [G1 G2].
+    destruct (group_by E (s_routes s1) req (Some (f :: F))) as [|g gs'] eqn:EG; [split; assumption|].
+    apply IH; [exact H2|now apply G2|].
+    assert (Hnd : NoDup (MF s1)) by (eapply Permutation_NoDup; [apply Permutation_sym; exact H1|exact Hnodup]).
+    unfold ProxyProofs.MF in Hnd, H1. rewrite EF in Hnd, H1.
+    eapply perm_trans; [|exact H1]. apply Permutation_app_head.
+    eapply perm_trans; [exact G1|]. apply regroup_items_perm; [exact Hnodup| |].
+    + apply NoDup_app_r in Hnd. exact Hnd.
+    + intros x Hx. eapply Permutation_in; [exact H1|]. apply in_or_app. now right.
+Qed.
+
+(* ---- the tail ---- *)
+Lemma filter_map_comm {A B} (f : B -> bool) (g : A -> B) l :
+  filter f (map g l) = map g (filter (fun x => f (g x)) l).
+Proof. induction l as [|x l IH]; cbn [map filter]; [reflexivity|]. destruct (f (g x)); cbn [map]; now rewrite IH. Qed.
+
+Lemma tail_inner F t ps m :
+  Forall ok (mtopics m) -> okq t ->
+  let m' := fold_left (fun m p => if mem_tpk (key E t, p) F then add_part E m t (p, ERR_NOT_LEADER) else m) ps m in
+  Permutation (mkeys E m') (mkeys E m ++ map (fun p => (key E t, p)) (filter (fun p => mem_tpk (key E t, p) F) ps)) /\
+  Forall ok (mtopics m').
+Proof.
+  intros Hm Ht. revert m Hm. induction ps as [|p ps IH]; intros m Hm; cbn [fold_left filter].
+  - split; [cbn; now rewrite app_nil_r|exact Hm].
+  - destruct (mem_tpk (key E t, p) F).
+    + destruct (add_part_perm E ok Hcompat m t (p, ERR_NOT_LEADER) Hm (proj1 Ht)) as [H1 H2].
+      destruct (IH _ H2) as [H3 H4]. split; [|exact H4]. eapply perm_trans; [exact H3|].
+      eapply perm_trans; [apply Permutation_app_tail; exact H1|]. cbn [fst map].
+      rewrite <- (proj2 Ht). cbn [app]. apply Permutation_middle.
+    + now apply IH.
+Qed.
+
+Lemma no_key_no_mem F k : existsb (fun f : tpk => bytes_eqb (fst f) k) F = false ->
+  forall p, mem_tpk (k, p) F = false.
+Proof.
+  intros H p. destruct (mem_tpk (k, p) F) eqn:Em; [|reflexivity].
+  apply mem_tpk_In in Em. assert (existsb (fun f : tpk => bytes_eqb (fst f) k) F = true).
+  { apply existsb_exists. exists (k, p). split; [exact Em|apply bytes_eqb_refl]. }
+  congruence.
+Qed.
+
+Definition tail_step (F : list tpk) (m : merged) (tp : topic * list Z) : merged :=
+  let t := fst tp in
+  if existsb (fun f : tpk => bytes_eqb (fst f) (key E t)) F
+  then fold_left (fun m p => if mem_tpk (key E t, p) F then add_part E m t (p, ERR_NOT_LEADER) else m)
+                 (snd tp) (ensure_topic E m t)
+  else m.
+
+Lemma tail_fold F r m :
+  Forall ok (mtopics m) -> Forall okq (sub_topics r) ->
+  Permutation (mkeys E (fold_left (tail_step F) r m))
+              (mkeys E m ++ map (keyp E) (filter (included E (Some F)) (flatten r))) /\
+  Forall ok (mtopics (fold_left (tail_step F) r m)).
+Proof.
+  revert m. induction r as [|[t ps] r IH]; intros m Hm Hr; cbn [fold_left].
+  - split; [cbn; now rewrite app_nil_r|exact Hm].
+  - inversion Hr as [|? ? Ht Hr']; subst. cbn [fst] in Ht.
+    assert (Hflat : map (keyp E) (filter (included E (Some F)) (flatten ((t, ps) :: r))) =
+                    map (fun p => (key E t, p)) (filter (fun p => mem_tpk (key E t, p) F) ps) ++
+                    map (keyp E) (filter (included E (Some F)) (flatten r))).
+    { unfold flatten at 1. cbn [flat_map fst snd]. fold (flatten r).
+      rewrite filter_app, map_app. f_equal. rewrite filter_map_comm, map_map. reflexivity. }
+    rewrite Hflat. clear Hflat.
+    assert (Hstep : Permutation (mkeys E (tail_step F m (t, ps)))
+               (mkeys E m ++ map (fun p => (key E t, p)) (filter (fun p => mem_tpk (key E t, p) F) ps)) /\
+             Forall ok (mtopics (tail_step F m (t, ps)))).
+    { unfold tail_step. cbn [fst snd].
+      destruct (existsb (fun f : tpk => bytes_eqb (fst f) (key E t)) F) eqn:Ex.
+      - destruct (ensure_topic_keys E ok m t Hm (proj1 Ht)) as [K1 K2].
+        destruct (tail_inner F t ps _ K2 Ht) as [K3 K4]. cbv zeta in *. split; [|exact K4].
+        rewrite <- K1. exact K3.
+      - split; [|exact Hm].
+        rewrite filter_none; [cbn; now rewrite app_nil_r|].
+        intros p _. now rewrite (no_key_no_mem F _ Ex p). }
+    destruct Hstep as [S1 S2]. destruct (IH _ S2 Hr') as [I1 I2]. split; [|exact I2].
+    eapply perm_trans; [exact I1|]. rewrite app_assoc. apply Permutation_app_tail. exact S1.
+Qed.
+
+Lemma tail_is_fold s : tail E req s = fold_left (tail_step (s_failed s)) req (s_merged s).
+Proof. reflexivity. Qed.
+
+Lemma tail_perm s :
+  Forall ok (mtopics (s_merged s)) -> Permutation (MF s) (sub_tps E req) ->
+  Permutation (mkeys E (tail E req s)) (sub_tps E req).
+Proof.
+  intros Hm Hinv. rewrite tail_is_fold.
+  destruct (tail_fold (s_failed s) req (s_merged s) Hm Hreq_ok) as [H1 _].
+  eapply perm_trans; [exact H1|]. eapply perm_trans; [|exact Hinv]. unfold ProxyProofs.MF.
+  apply Permutation_app_head.
+  assert (Hnd : NoDup (MF s)) by (eapply Permutation_NoDup; [apply Permutation_sym; exact Hinv|exact Hnodup]).
+  apply regroup_items_perm; [exact Hnodup| |].
+  - unfold ProxyProofs.MF in Hnd. now apply NoDup_app_r in Hnd.
+  - intros x Hx. eapply Permutation_in; [exact Hinv|]. apply in_or_app. now right.
+Qed.
+
+Lemma filter_true {A} (f : A -> bool) l : (forall x, f x = true) -> filter f l = l.
+Proof. intros H. induction l as [|x l IH]; cbn; [reflexivity|]. now rewrite H, IH. Qed.
+
+(* the merged response of forwardProduce / forwardFetch holds exactly the requested
+   topic-partitions, for any positive number of attempts *)
+Lemma forward_exactly_once maxr rs rr :
+  (maxr >= 1)%nat ->
+  let s := loop E dial backend ord req maxr 0 (init_st rs rr) (group_by E rs req None) in
+  Permutation (mkeys E (tail E req s)) (sub_tps E req).
+Proof.
+  intros Hmax. destruct maxr as [|fuel]; [lia|]. cbv zeta.
+  destruct (group_by_perm E ok rs req None) as [G1 G2].
+  destruct (loop_exit fuel 0 (init_st rs rr) (group_by E rs req None)) as [L1 L2].
+  - constructor.
+  - now apply G2.
+  - cbn [init_st s_merged mkeys merged_ents flat_map map app].
+    eapply perm_trans; [exact G1|]. rewrite filter_true by reflexivity. apply Permutation_refl.
+  - now apply tail_perm.
+Qed.
+
+End Generic3.
+
+(* ---- instances ---- *)
+Definition ord_ok (ord : ord_fn) : Prop := forall k gs, Permutation (ord k gs) gs.
+Definition replies_complete (E : env) (ok : topic -> Prop) (backend : backend_fn) : Prop :=
+  forall k a n sub, reply_complete E ok sub (backend k a n sub).
+Definition distinct_tps (E : env) (req : subreq) : Prop := NoDup (sub_tps E req).
+
+(* produce: topics are names; match and key are the name *)
+Lemma produce_compat E : e_fetch E = false ->
+  forall e q, True -> True -> (same E e q = true <-> rkey E e = rkey E q).
+Proof. intros Hf e q _ _. unfold same, rkey. rewrite Hf. apply bytes_eqb_eq. Qed.
+
+Lemma produce_exactly_once E dial backend ord maxr rs rr req :
+  e_fetch E = false -> (maxr >= 1)%nat -> distinct_tps E req -> ord_ok ord ->
+  replies_complete E (fun _ => True) backend ->
+  Permutation (mkeys E (fst (forward E dial backend ord maxr rs rr req))) (sub_tps E req).
+Proof.
+  intros Hf Hmax Hnd Hord Hb. unfold forward. cbn [fst].
+  assert (Hr : resolve_req E req = req) by (unfold resolve_req; now rewrite Hf). rewrite Hr.
+  apply (forward_exactly_once E (fun _ => True) (produce_compat E Hf) backend Hb dial ord Hord req Hnd); [|exact Hmax].
+  apply Forall_forall. intros t _. split; [exact I|]. unfold key, rkey. now rewrite Hf.
+Qed.
+
+(* fetch, general form: [ok] covers the resolved request's topics and the replies'
+   topics; on them merge match and key agree; request topics have key = reply key *)
+Lemma fetch_exactly_once E (ok : topic -> Prop) dial backend ord maxr rs rr req :
+  (forall e q, ok e -> ok q -> (same E e q = true <-> rkey E e = rkey E q)) ->
+  Forall (okq E ok) (sub_topics (resolve_req E req)) ->
+  (maxr >= 1)%nat -> distinct_tps E (resolve_req E req) -> ord_ok ord ->
+  replies_complete E ok backend ->
+  Permutation (mkeys E (fst (forward E dial backend ord maxr rs rr req))) (sub_tps E (resolve_req E req)).
+Proof.
+  intros Hc Hq Hmax Hnd Hord Hb. unfold forward. cbn [fst].
+  now apply (forward_exactly_once E ok Hc backend Hb dial ord Hord (resolve_req E req) Hnd Hq).
+Qed.
+
+(* fetch by name (versions up to 12): every topic has a non-empty name and no id *)
+Definition named (t : topic) : Prop := is_zero_id (t_id t) = true /\ t_name t <> [].
+
+Lemma is_empty_false b : b <> [] -> is_empty b = false.
+Proof. destruct b; [congruence|reflexivity]. Qed.
+
+Lemma named_rkey E t : e_fetch E = true -> named t -> rkey E t = t_name t /\ key E t = t_name t.
+Proof.
+  intros Hf [_ Hn]. unfold rkey, key, reply_name, fetch_key. rewrite Hf.
+  now rewrite !(is_empty_false _ Hn).
+Qed.
+
+Lemma named_compat E : e_fetch E = true ->
+  forall e q, named e -> named q -> (same E e q = true <-> rkey E e = rkey E q).
+Proof.
+  intros Hf e q He Hq. destruct (named_rkey E e Hf He) as [-> _]. destruct (named_rkey E q Hf Hq) as [-> _].
+  unfold same. rewrite Hf. destruct Hq as [Hz _]. rewrite Hz. cbn [negb]. apply bytes_eqb_eq.
+Qed.
+
+Lemma named_resolve_req E req : Forall named (sub_topics req) -> resolve_req E req = req.
+Proof.
+  intros H. unfold resolve_req. destruct (e_fetch E); [|reflexivity].
+  induction req as [|[t ps] req IH]; cbn [map]; [reflexivity|].
+  inversion H as [|? ? Ht Hr]; subst. cbn [fst] in *. destruct Ht as [_ Hn].
+  rewrite (is_empty_false _ Hn). cbn [andb]. now rewrite IH.
+Qed.
+
+Lemma fetch_by_name_exactly_once E dial backend ord maxr rs rr req :
+  e_fetch E = true -> Forall named (sub_topics req) ->
+  (maxr >= 1)%nat -> distinct_tps E req -> ord_ok ord ->
+  replies_complete E named backend ->
+  Permutation (mkeys E (fst (forward E dial backend ord maxr rs rr req))) (sub_tps E req).
+Proof.
+  intros Hf Hn Hmax Hnd Hord Hb.
+  pose proof (fetch_exactly_once E named dial backend ord maxr rs rr req (named_compat E Hf)) as H.
+  rewrite (named_resolve_req E req Hn) in H. apply H; try assumption.
+  apply Forall_forall. intros t Ht. rewrite Forall_forall in Hn. specialize (Hn t Ht).
+  split; [exact Hn|]. destruct (named_rkey E t Hf Hn) as [-> ->]. reflexivity.
+Qed.
+
+(* consequence in counting form: exactly one entry for a requested topic-partition, none
+   for any other *)
+Definition tpk_dec : forall a b : tpk, {a = b} + {a <> b}.
+Proof. decide equality; [apply Z.eq_dec|apply (list_eq_dec Z.eq_dec)]. Defined.
+
+Lemma perm_count_one (l req : list tpk) :
+  Permutation l req -> NoDup req ->
+  forall x, count_occ tpk_dec l x = if in_dec tpk_dec x req then 1%nat else 0%nat.
+Proof.
+  intros Hp Hn x. rewrite (Permutation_count_occ tpk_dec l req) in Hp. rewrite Hp.
+  destruct (in_dec tpk_dec x req) as [Hi|Hi].
+  - now apply NoDup_count_occ'.
+  - now apply count_occ_not_In.
+Qed.
+
+(* ---- success only if a backend replied success ---- *)
+Section Sound.
+Variable E : env.
+
+(* entry x = (topic, partition, code) stems from a logged backend reply that reported
+   code 0 for that partition under a topic the entry's topic record matches *)
+Definition from_reply (log : list logent) (x : rpart) : Prop :=
+  exists e parts t', In e log /\ l_out e = Reply parts /\ In (t', snd (fst x), 0) parts /\
+    (fst (fst x) = t' \/ same E (fst (fst x)) t' = true).
+
+Definition sound (log : list logent) (m : merged) : Prop :=
+  forall x, In x (merged_ents m) -> snd x = 0 -> from_reply log x.
+
+Lemma merged_ents_cons e es m :
+  merged_ents ((e, es) :: m) = map (fun pc : Z * Z => (e, fst pc, snd pc)) es ++ merged_ents m.
+Proof. reflexivity. Qed.
+
+Lemma add_part_in m q pc x :
+  In x (merged_ents (add_part E m q pc)) ->
+  In x (merged_ents m) \/
+  (snd (fst x) = fst pc /\ snd x = snd pc /\ (fst (fst x) = q \/ same E (fst (fst x)) q = true)).
+Proof.
+  induction m as [|[e es] m IH]; cbn [add_part].
+  - rewrite merged_ents_cons. cbn. intros [<-|[]]. right. cbn. auto.
+  - destruct (same E e q) eqn:Hs; rewrite !merged_ents_cons; intros H; apply in_app_or in H as [H|H].
+    + rewrite map_app in H. apply in_app_or in H as [H|H].
+      * left. apply in_or_app. now left.
+      * cbn in H. destruct H as [<-|[]]. right. cbn. auto.
+    + left. apply in_or_app. now right.
+    + left. apply in_or_app. now left.
+    + destruct (IH H) as [H'|H']; [left; apply in_or_app; now right|now right].
+Qed.
+
+Lemma ensure_in m q x : In x (merged_ents (ensure_topic E m q)) -> In x (merged_ents m).
+Proof.
+  induction m as [|[e es] m IH]; cbn [ensure_topic].
+  - cbn. tauto.
+  - destruct (same E e q); [tauto|]. rewrite !merged_ents_cons. intros H.
+    apply in_app_or in H as [H|H]; apply in_or_app; [now left|right; now apply IH].
+Qed.
+
+Lemma add_parts_in t code ps m x :
+  In x (merged_ents (fold_left (fun m p => add_part E m t (p, code)) ps m)) ->
+  In x (merged_ents m) \/ snd x = code.
+Proof.
+  revert m. induction ps as [|p ps IH]; intros m; cbn [fold_left]; [tauto|].
+  intros H. destruct (IH _ H) as [H'|H']; [|now right].
+  destruct (add_part_in _ _ _ _ H') as [H''|[_ [H'' _]]]; [now left|now right].
+Qed.
+
+Lemma add_error_all_in s code m x :
+  In x (merged_ents (add_error_all E m s code)) -> In x (merged_ents m) \/ snd x = code.
+Proof.
+  unfold add_error_all. revert m. induction s as [|[t ps] s IH]; intros m; cbn [fold_left]; [tauto|].
+  intros H. destruct (IH _ H) as [H'|H']; [|now right]. cbn [fst snd] in H'.
+  destruct (add_parts_in _ _ _ _ _ H') as [H''|H'']; [|now right]. left. now apply ensure_in in H''.
+Qed.
+
+Lemma from_reply_mono log l x : from_reply log x -> from_reply (log ++ l) x.
+Proof.
+  intros [e [parts [t' [H1 H2]]]]. exists e, parts, t'. split; [apply in_or_app; now left|exact H2].
+Qed.
+
+Lemma sound_mono log l m : sound log m -> sound (log ++ l) m.
+Proof. intros H x Hx Hz. apply from_reply_mono. now apply H. Qed.
+
+Definition logged (log : list logent) (x : rpart) : Prop :=
+  exists e parts, In e log /\ l_out e = Reply parts /\ In x parts.
+
+Lemma process_part_sound s x :
+  logged (s_log s) x -> sound (s_log s) (s_merged s) ->
+  sound (s_log (process_part E s x)) (s_merged (process_part E s x)) /\
+  s_log (process_part E s x) = s_log s.
+Proof.
+  intros [e [parts [H1 [H2 H3]]]] Hs. destruct x as [[t p] code]. unfold process_part.
+  destruct (code =? ERR_NOT_LEADER); cbn [s_log s_merged]; [split; [exact Hs|reflexivity]|].
+  split; [|reflexivity]. intros y Hy Hz. apply add_part_in in Hy as [Hy|[Hp [Hc Ht]]]; [now apply Hs|].
+  cbn [fst snd] in Hp, Hc. exists e, parts, t. split; [exact H1|]. split; [exact H2|].
+  split; [|exact Ht]. rewrite Hp. rewrite Hz in Hc. now rewrite Hc.
+Qed.
+
+Lemma process_parts_sound parts s :
+  (forall x, In x parts -> logged (s_log s) x) -> sound (s_log s) (s_merged s) ->
+  sound (s_log (fold_left (process_part E) parts s)) (s_merged (fold_left (process_part E) parts s)).
+Proof.
+  revert s. induction parts as [|x parts IH]; intros s Hl Hs; cbn [fold_left]; [exact Hs|].
+  destruct (process_part_sound s x (Hl x (or_introl eq_refl)) Hs) as [H1 H2].
+  apply IH; [|exact H1]. intros y Hy. rewrite H2. apply Hl. now right.
+Qed.
+
+Lemma process_error_sound last s sub :
+  sound (s_log s) (s_merged s) ->
+  sound (s_log (process_error E last s sub)) (s_merged (process_error E last s sub)).
+Proof.
+  intros Hs. unfold process_error. destruct (e_fetch E && negb last); cbn [s_log s_merged]; [exact Hs|].
+  intros x Hx Hz. apply add_error_all_in in Hx as [Hx|Hx]; [now apply Hs|].
+  unfold ERR_REQUEST_TIMED_OUT in Hx. lia.
+Qed.
+
+Lemma process_result_sound last k s r :
+  sound (s_log s) (s_merged s) ->
+  sound (s_log (process_result E last k s r)) (s_merged (process_result E last k s r)).
+Proof.
+  intros Hs. unfold process_result. destruct (snd r) as [[a o]|]; [|now apply process_error_sound].
+  set (s1 := mkSt (s_routes s) (s_rr s) (s_seen s) (s_merged s) (s_failed s)
+                  (s_log s ++ [mkLog k a (g_sub (fst r)) o])).
+  assert (Hs1 : sound (s_log s1) (s_merged s1)) by (cbn; now apply sound_mono).
+  destruct o as [parts| | |]; try (now apply process_error_sound).
+  apply process_parts_sound; [|exact Hs1]. intros x Hx.
+  exists (mkLog k a (g_sub (fst r)) (Reply parts)), parts. cbn [s_log s1 l_out].
+  split; [apply in_or_app; right; now left|]. split; [reflexivity|exact Hx].
+Qed.
+
+Lemma process_results_sound last k rs s :
+  sound (s_log s) (s_merged s) ->
+  sound (s_log (fold_left (process_result E last k) rs s)) (s_merged (fold_left (process_result E last k) rs s)).
+Proof.
+  revert s. induction rs as [|r rs IH]; intros s Hs; cbn [fold_left]; [exact Hs|].
+  apply IH. now apply process_result_sound.
+Qed.
+
+Lemma attempt_sound dial backend last k s gs :
+  sound (s_log s) (s_merged s) ->
+  sound (s_log (attempt E dial backend last k s gs)) (s_merged (attempt E dial backend last k s gs)).
+Proof.
+  intros Hs. unfold attempt. destruct (connect_all E (dial k) gs [] (s_rr s)) as [work rr1].
+  destruct (send_all backend k work (s_seen s)) as [results seen1].
+  apply process_results_sound. exact Hs.
+Qed.
+
+Lemma loop_sound dial backend ord req fuel : forall k s gs,
+  sound (s_log s) (s_merged s) ->
+  sound (s_log (loop E dial backend ord req fuel k s gs)) (s_merged (loop E dial backend ord req fuel k s gs)).
+Proof.
+  induction fuel as [|fuel IH]; intros k s gs Hs; cbn [loop]; [exact Hs|].
+  set (s1 := attempt E dial backend (match fuel with O => true | _ => false end) k s (ord k gs)).
+  assert (H1 : sound (s_log s1) (s_merged s1)) by now apply attempt_sound.
+  destruct (s_failed s1); [exact H1|].
+  destruct (group_by E (s_routes s1) req (Some (t :: l))); [exact H1|]. now apply IH.
+Qed.
+
+Lemma tail_step_in F m tp x :
+  In x (merged_ents (tail_step E F m tp)) -> In x (merged_ents m) \/ snd x = ERR_NOT_LEADER.
+Proof.
+  unfold tail_step. destruct (existsb _ F); [|tauto].
+  generalize (ensure_topic E m (fst tp)) (ensure_in m (fst tp) x). intros m0 H0.
+  assert (forall ps m1, In x (merged_ents (fold_left
+            (fun m p => if mem_tpk (key E (fst tp), p) F then add_part E m (fst tp) (p, ERR_NOT_LEADER) else m) ps m1)) ->
+          In x (merged_ents m1) \/ snd x = ERR_NOT_LEADER) as Hfold.
+  { induction ps as [|p ps IH]; intros m1; cbn [fold_left]; [tauto|].
+    intros H. destruct (IH _ H) as [H'|H']; [|now right].
+    destruct (mem_tpk (key E (fst tp), p) F); [|now left].
+    destruct (add_part_in _ _ _ _ H') as [H''|[_ [H'' _]]]; [now left|now right]. }
+  intros H. destruct (Hfold _ _ H) as [H'|H']; [left; now apply H0|now right].
+Qed.
+
+Lemma tail_sound req s : sound (s_log s) (s_merged s) -> sound (s_log s) (tail E req s).
+Proof.
+  intros Hs. rewrite tail_is_fold. generalize (s_merged s) Hs. clear Hs.
+  induction req as [|tp req IH]; intros m Hs; cbn [fold_left]; [exact Hs|].
+  apply IH. intros x Hx Hz. apply tail_step_in in Hx as [Hx|Hx]; [now apply Hs|].
+  unfold ERR_NOT_LEADER in Hx. lia.
+Qed.
+
+(* every success entry of the merged response stems from a backend's success reply —
+   no hypothesis on the request, the replies, the order or the number of attempts *)
+Lemma forward_success_sound dial backend ord maxr rs rr req :
+  let r := forward E dial backend ord maxr rs rr req in
+  forall x, In x (merged_ents (fst r)) -> snd x = 0 -> from_reply (s_log (snd r)) x.
+Proof.
+  cbv zeta. unfold forward. cbn [fst snd]. apply tail_sound. apply loop_sound.
+  intros x []. 
+Qed.
+
+End Sound.
+
+(* ---- produce: a partition is sent again only after a NOT_LEADER reply for it ---- *)
+Section Resend.
+Variable E : env.
+Hypothesis Hprod : e_fetch E = false.
+
+(* at attempt j a backend replied NOT_LEADER_OR_FOLLOWER for topic-partition x *)
+Definition rejected (log : list logent) (j : Z) (x : tpk) : Prop :=
+  exists e parts t, In e log /\ l_attempt e = j /\ l_out e = Reply parts /\
+    In (t, snd x, ERR_NOT_LEADER) parts /\ rkey E t = fst x.
+
+(* every sub-request sent at an attempt j > 0 contains only partitions rejected at j-1 *)
+Definition resend_ok (log : list logent) : Prop :=
+  forall e, In e log -> forall x, In x (sub_tps E (l_sub e)) ->
+    l_attempt e = 0 \/ rejected log (l_attempt e - 1) x.
+
+Lemma rejected_mono log l j x : rejected log j x -> rejected (log ++ l) j x.
+Proof.
+  intros [e [parts [t [H1 H2]]]]. exists e, parts, t. split; [apply in_or_app; now left|exact H2].
+Qed.
+
+Lemma process_part_failed s x y :
+  In y (s_failed (process_part E s x)) ->
+  In y (s_failed s) \/ (snd x = ERR_NOT_LEADER /\ y = rkeyp E x).
+Proof.
+  destruct x as [[t p] code]. unfold process_part. destruct (code =? ERR_NOT_LEADER) eqn:Ec; cbn [s_failed]; [|tauto].
+  intros H. apply in_app_or in H as [H|[<-|[]]]; [now left|]. right. apply Z.eqb_eq in Ec. now split.
+Qed.
+
+Lemma process_part_log s x : s_log (process_part E s x) = s_log s.
+Proof. destruct x as [[t p] code]. unfold process_part. now destruct (code =? ERR_NOT_LEADER). Qed.
+
+Lemma process_parts_failed parts s y :
+  In y (s_failed (fold_left (process_part E) parts s)) ->
+  In y (s_failed s) \/ exists x, In x parts /\ snd x = ERR_NOT_LEADER /\ y = rkeyp E x.
+Proof.
+  revert s. induction parts as [|x parts IH]; intros s; cbn [fold_left]; [tauto|].
+  intros H. destruct (IH _ H) as [H'|[x' [H1 H2]]].
+  - apply process_part_failed in H' as [H'|H']; [now left|]. right. exists x. split; [now left|exact H'].
+  - right. exists x'. split; [now right|exact H2].
+Qed.
+
+Lemma process_parts_log parts s : s_log (fold_left (process_part E) parts s) = s_log s.
+Proof.
+  revert s. induction parts as [|x parts IH]; intros s; cbn [fold_left]; [reflexivity|].
+  now rewrite IH, process_part_log.
+Qed.
+
+Lemma process_error_produce last s sub :
+  s_failed (process_error E last s sub) = s_failed s /\ s_log (process_error E last s sub) = s_log s.
+Proof. unfold process_error. rewrite Hprod. cbn. split; reflexivity. Qed.
+
+(* one result: the log grows by at most the entry of this send; new failed partitions
+   were rejected in that entry *)
+Lemma process_result_resend last k s r :
+  let s' := process_result E last k s r in
+  (exists new, s_log s' = s_log s ++ new /\
+               Forall (fun e => l_attempt e = k /\ l_sub e = g_sub (fst r)) new) /\
+  (forall y, In y (s_failed s') -> In y (s_failed s) \/ rejected (s_log s') k y).
+Proof.
+  cbv zeta. unfold process_result. destruct (snd r) as [[a o]|].
+  - set (ent := mkLog k a (g_sub (fst r)) o).
+    set (s1 := mkSt (s_routes s) (s_rr s) (s_seen s) (s_merged s) (s_failed s) (s_log s ++ [ent])).
+    destruct o as [parts| | |].
+    + split.
+      * exists [ent]. rewrite process_parts_log. split; [reflexivity|]. repeat constructor.
+      * intros y Hy. apply process_parts_failed in Hy as [Hy|[x [H1 [H2 H3]]]]; [now left|]. right.
+        rewrite process_parts_log. exists ent, parts, (fst (fst x)). cbn [s_log s1].
+        split; [apply in_or_app; right; now left|]. split; [reflexivity|]. split; [reflexivity|].
+        subst y. unfold rkeyp. cbn [fst snd]. split; [|reflexivity].
+        destruct x as [[t p] c]. cbn [fst snd] in *. now subst c.
+    + destruct (process_error_produce last s1 (g_sub (fst r))) as [-> ->]. split.
+      * exists [ent]. split; [reflexivity|]. repeat constructor.
+      * intros y Hy. now left.
+    + destruct (process_error_produce last s1 (g_sub (fst r))) as [-> ->]. split.
+      * exists [ent]. split; [reflexivity|]. repeat constructor.
+      * intros y Hy. now left.
+    + destruct (process_error_produce last s1 (g_sub (fst r))) as [-> ->]. split.
+      * exists [ent]. split; [reflexivity|]. repeat constructor.
+      * intros y Hy. now left.
+  - destruct (process_error_produce last s (g_sub (fst r))) as [-> ->]. split.
+    + exists []. split; [now rewrite app_nil_r|constructor].
+    + intros y Hy. now left.
+Qed.
+
+Lemma process_results_resend last k rs s :
+  let s' := fold_left (process_result E last k) rs s in
+  (exists new, s_log s' = s_log s ++ new /\
+               Forall (fun e => l_attempt e = k /\ In (l_sub e) (map (fun r => g_sub (fst r)) rs)) new) /\
+  (forall y, In y (s_failed s') -> In y (s_failed s) \/ rejected (s_log s') k y).
+Proof.
+  cbv zeta. revert s. induction rs as [|r rs IH]; intros s; cbn [fold_left].
+  - split; [exists []; split; [now rewrite app_nil_r|constructor]|]. intros y Hy. now left.
+  - destruct (process_result_resend last k s r) as [[new1 [L1 F1]] R1]. cbv zeta in *.
+    destruct (IH (process_result E last k s r)) as [[new2 [L2 F2]] R2]. split.
+    + exists (new1 ++ new2). split; [now rewrite L2, L1, app_assoc|]. apply Forall_app. split.
+      * eapply Forall_impl; [|exact F1]. intros e [A B]. split; [exact A|]. cbn [map]. left. now rewrite B.
+      * eapply Forall_impl; [|exact F2]. intros e [A B]. split; [exact A|]. cbn [map]. now right.
+    + intros y Hy. destruct (R2 y Hy) as [H|H]; [|now right].
+      destruct (R1 y H) as [H'|H']; [now left|]. right. rewrite L2. now apply rejected_mono.
+Qed.
+
+Lemma attempt_resend dial backend last k s gs :
+  let s1 := attempt E dial backend last k s gs in
+  (exists new, s_log s1 = s_log s ++ new /\
+               Forall (fun e => l_attempt e = k /\ In (l_sub e) (map g_sub gs)) new) /\
+  (forall y, In y (s_failed s1) -> rejected (s_log s1) k y).
+Proof.
+  cbv zeta. unfold attempt.
+  pose proof (connect_all_fst E (dial k) gs [] (s_rr s)) as Hc.
+  destruct (connect_all E (dial k) gs [] (s_rr s)) as [work rr1]. cbn [fst] in Hc.
+  assert (Hs : map fst (fst (send_all backend k work (s_seen s))) = map fst work).
+  { clear Hc. generalize (s_seen s). induction work as [|[g [a|]] work IH]; intros seen; cbn [send_all]; [reflexivity| |].
+    - specialize (IH (seen_bump a seen)). destruct (send_all backend k work (seen_bump a seen)). cbn [fst map] in *. now rewrite IH.
+    - specialize (IH seen). destruct (send_all backend k work seen). cbn [fst map] in *. now rewrite IH. }
+  destruct (send_all backend k work (s_seen s)) as [results seen1]. cbn [fst] in Hs.
+  set (f := fun r : group * option (bytes * outcome) => is_none (snd r)).
+  set (ordered := filter f results ++ filter (fun r => negb (f r)) results).
+  destruct (process_results_resend last k ordered
+              (mkSt (s_routes s) rr1 seen1 (s_merged s) [] (s_log s))) as [[new [L F]] R].
+  cbv zeta in *. cbn [s_log s_failed] in *. split.
+  - exists new. split; [exact L|]. eapply Forall_impl; [|exact F]. intros e [A B]. split; [exact A|].
+    apply in_map_iff in B as [r [Br Bi]]. apply in_map_iff. exists (fst r). split; [exact Br|].
+    rewrite <- Hc, <- Hs. apply in_map. unfold ordered in Bi.
+    apply in_app_or in Bi as [Bi|Bi]; apply filter_In in Bi; tauto.
+  - intros y Hy. destruct (R y Hy) as [[]|H]. exact H.
+Qed.
+
+Lemma in_gtps_sub gs g x : In g gs -> In x (sub_tps E (g_sub g)) -> In x (gtps E gs).
+Proof. intros Hg Hx. unfold gtps. apply in_flat_map. now exists g. Qed.
+
+Lemma loop_resend dial backend ord req (Hord : ord_ok ord) fuel : forall k s gs,
+  resend_ok (s_log s) ->
+  (k = 0 \/ forall x, In x (gtps E gs) -> rejected (s_log s) (k - 1) x) ->
+  resend_ok (s_log (loop E dial backend ord req fuel k s gs)).
+Proof.
+  induction fuel as [|fuel IH]; intros k s gs Hr Hg; cbn [loop]; [exact Hr|].
+  set (last := match fuel with O => true | _ => false end).
+  destruct (attempt_resend dial backend last k s (ord k gs)) as [[new [L F]] R]. cbv zeta in *.
+  set (s1 := attempt E dial backend last k s (ord k gs)) in *.
+  assert (H1 : resend_ok (s_log s1)).
+  { rewrite L. intros e He x Hx. apply in_app_or in He as [He|He].
+    - destruct (Hr e He x Hx) as [H|H]; [now left|right; now apply rejected_mono].
+    - rewrite Forall_forall in F. destruct (F e He) as [Ha Hs]. rewrite Ha.
+      destruct Hg as [->|Hg]; [now left|]. right. apply rejected_mono. apply Hg.
+      apply in_map_iff in Hs as [g [Hg1 Hg2]]. rewrite <- Hg1 in Hx.
+      eapply in_gtps_sub; [|exact Hx]. eapply Permutation_in; [apply Hord|exact Hg2]. }
+  destruct (s_failed s1) as [|f F1] eqn:EF; [exact H1|].
+  destruct (group_by_perm E (fun _ => True) (s_routes s1) req (Some (f :: F1))) as [G1 _].
+  destruct (group_by E (s_routes s1) req (Some (f :: F1))) as [|g gs'] eqn:EG; [exact H1|].
+  apply IH; [exact H1|]. right. intros x Hx. replace (k + 1 - 1) with k by lia. apply R.
+  eapply Permutation_in in Hx; [|exact G1]. apply in_map_iff in Hx as [y [<- Hy]].
+  apply filter_In in Hy as [_ Hy]. unfold included in Hy. now apply mem_tpk_In in Hy.
+Qed.
+
+Lemma forward_resend dial backend ord maxr rs rr req :
+  ord_ok ord -> resend_ok (s_log (snd (forward E dial backend ord maxr rs rr req))).
+Proof.
+  intros Hord. unfold forward. cbn [snd]. apply loop_resend; [exact Hord| |now left].
+  intros e [].
+Qed.
+
+End Resend.
